@@ -29,7 +29,7 @@ ASSUMPTIONS = [
     'no-mutation are demanded there',
     '+inf labels must be rejected with ValueError (documented)',
 ]
-REQUIRED_COUNTERS = ['default_rank_checked', 'arrays_with_ties_and_nan',
+REQUIRED_COUNTERS = ['reused_warper_compared', 'default_rank_checked', 'arrays_with_ties_and_nan',
                      'unwarp_roundtrips', 'no_reversal_checked',
                      'input_snapshot_checked', 'posinf_rejections']
 MIN_DISTINCT = {'quick': 300, 'thorough': 3000}
@@ -297,9 +297,36 @@ def check_posinf(ctx, name, factory, rng):
                 {'subject': name, 'labels': ['1.0', 'inf', '2.0']})
 
 
+def check_reuse(ctx, name, reused, factory, cls, y, index, history):
+  """One warper object used for successive label arrays (as VizierGPBandit does)
+  must warp each array exactly as a fresh warper would."""
+  feasible = np.isfinite(y.flatten())
+  if name in NAN_INTOLERANT and feasible.sum() < y.size:
+    return
+  if feasible.sum() == 0 and name not in FINITE:
+    return
+  try:
+    with np.errstate(all='ignore'):
+      a = np.asarray(reused.warp(y.copy()), dtype=np.float64)
+      b = np.asarray(factory().warp(y.copy()), dtype=np.float64)
+  except Exception:  # pylint: disable=broad-except
+    return  # exceptions are judged by check_one on the fresh object
+  ctx.count('reused_warper_compared')
+  same = a.shape == b.shape and np.array_equal(np.isnan(a), np.isnan(b)) and np.allclose(
+      np.nan_to_num(a, posinf=1e308, neginf=-1e308), np.nan_to_num(b, posinf=1e308, neginf=-1e308), rtol=1e-6, atol=1e-9)
+  if not same:
+    ctx.violation(f'reused-warper-differs-from-fresh:{name}',
+                  f'{name}: a warper object that had warped {len(history)} earlier arrays warps this array differently from a fresh one',
+                  {'subject': name, 'class': cls, 'labels': [repr(float(v)) for v in y.flatten()], 'index': index,
+                   'reuse_history': [[repr(float(v)) for v in h.flatten()] for h in history[-3:]]},
+                  {'reused': [repr(float(v)) for v in a.flatten()][:20], 'fresh': [repr(float(v)) for v in b.flatten()][:20]})
+
+
 def run_shard(ctx):
   S = subjects()
   names = sorted(S)
+  reused = {name: S[name]() for name in names}
+  history = {name: [] for name in names}
   n_cases = 2400 if ctx.tier == 'quick' else 120000
   if ctx.shard == 0:
     for name in names:
@@ -316,6 +343,11 @@ def run_shard(ctx):
     y = gen_array(rng, cls)
     for name in names:
       check_one(ctx, name, S[name], cls, y.copy(), i)
+      if cls != 'extreme':
+        check_reuse(ctx, name, reused[name], S[name], cls, y, i, history[name])
+        history[name].append(y.copy())
+        if len(history[name]) > 3:
+          history[name].pop(0)
     if i < 3 * ctx.nshards:
       ctx.sample({'class': cls, 'labels': [repr(float(v)) for v in y.flatten()][:12],
                   'subjects': len(names)})
@@ -326,5 +358,16 @@ def replay(ctx, case):
   y = np.array([float(v) for v in case['labels']], dtype=np.float64).reshape(-1, 1)
   if 'class' not in case:
     check_posinf(ctx, case['subject'], S[case['subject']], None)
+    return
+  if 'reuse_history' in case:
+    w = S[case['subject']]()
+    hist = [np.array([float(v) for v in h], dtype=np.float64).reshape(-1, 1) for h in case['reuse_history']]
+    for h in hist:
+      try:
+        with np.errstate(all='ignore'):
+          w.warp(h.copy())
+      except Exception:  # pylint: disable=broad-except
+        pass
+    check_reuse(ctx, case['subject'], w, S[case['subject']], case['class'], y, case.get('index', 0), hist)
     return
   check_one(ctx, case['subject'], S[case['subject']], case['class'], y, case.get('index', 0))
